@@ -11,6 +11,7 @@ import (
 	"os"
 	"path/filepath"
 	"strings"
+	"time"
 
 	"github.com/TimothyStiles/poly/io/uniprot"
 
@@ -497,6 +498,155 @@ func c20units(tier string) []mc.Unit {
 			r.AddNontrivial(int64(st.Execs))
 		}
 		r.Bound("read-file", "uniprot.Read on 5 gzip files (intact, cut inside the first / second entry, cut between entries, mismatched end tag), documented consumer, all interleavings")
+	}})
+	// every calendar day of eight years (century and leap-year boundaries) as the created, modified and
+	// sequence-modified date of the first of two entries: both entries are delivered complete, no error
+	us = append(us, mc.Unit{Name: "dates", Serial: true, Weight: 60, Run: func(r *mc.Recorder) {
+		var cnt int64
+		es := c20entries(2)
+		base := string(c20doc(es))
+		for _, y := range []int{1900, 1999, 2000, 2001, 2004, 2023, 2024, 2100} {
+			for d := time.Date(y, 1, 1, 0, 0, 0, 0, time.UTC); d.Year() == y; d = d.AddDate(0, 0, 1) {
+				date := d.Format("2006-01-02")
+				for attr := 0; attr < 3; attr++ {
+					doc := base
+					switch attr {
+					case 0:
+						doc = strings.Replace(doc, `created="2000-05-30"`, `created="`+date+`"`, 1)
+					case 1:
+						doc = strings.Replace(doc, `modified="2019-07-03"`, `modified="`+date+`"`, 1)
+					case 2:
+						doc = strings.Replace(doc, `checksum="X" modified="2000-05-30"`, `checksum="X" modified="`+date+`"`, 1)
+					}
+					entries, errs := make(chan uniprot.Entry, 10), make(chan error, 10)
+					go uniprot.Parse(strings.NewReader(doc), entries, errs)
+					var got []uniprot.Entry
+					for e := range entries {
+						got = append(got, e)
+					}
+					nerr := 0
+					for range errs {
+						nerr++
+					}
+					cnt++
+					if nerr != 0 || len(got) != 2 || !c20same(got[0], es[0]) || !c20same(got[1], es[1]) {
+						r.Failf("entries", fmt.Sprintf("well-formed document whose first entry carries the date %s as %s", date, []string{"created", "modified", "sequence modified"}[attr]), []string{"dates"}, "2 complete entries, no error", fmt.Sprint(c20show(got), " errors=", nerr))
+					}
+				}
+			}
+		}
+		r.Eval(cnt)
+		r.AddStates(cnt)
+		r.AddTransitions(cnt)
+		r.AddNontrivial(cnt)
+		r.Bound("dates", "every day of 1900, 1999, 2000, 2001, 2004, 2023, 2024, 2100 x 3 date attributes")
+	}})
+	// the file wrapper free-running (its own goroutines and channels) under several GOMAXPROCS settings: gzip files cut
+	// at every byte of their tail and at every 37th byte before, and with every bit of the gzip trailer flipped
+	us = append(us, mc.Unit{Name: "read-file/damaged-gzip", Serial: true, Weight: 60, Run: func(r *mc.Recorder) {
+		dir, err := os.MkdirTemp("", "c20d")
+		if err != nil {
+			panic(err)
+		}
+		defer os.RemoveAll(dir)
+		var cnt int64
+		es := c20entries(3)
+		doc := c20doc(es)
+		gz := c20gz(doc)
+		type variant struct {
+			what string
+			data []byte
+		}
+		var vs []variant
+		for cut := len(gz) - 1; cut > 0; cut-- {
+			if cut < len(gz)-48 && cut%37 != 0 {
+				continue
+			}
+			vs = append(vs, variant{fmt.Sprintf("cut after %d of %d compressed bytes", cut, len(gz)), gz[:cut]})
+		}
+		for i := len(gz) - 8; i < len(gz); i++ {
+			for bit := 0; bit < 8; bit++ {
+				d := append([]byte(nil), gz...)
+				d[i] ^= 1 << bit
+				vs = append(vs, variant{fmt.Sprintf("bit %d of trailer byte %d flipped", bit, i-(len(gz)-8)), d})
+			}
+		}
+		withProcs([]int{1, 4}, func(procs int) {
+			for vi, v := range vs {
+				path := filepath.Join(dir, fmt.Sprintf("v%d.xml.gz", vi))
+				os.WriteFile(path, v.data, 0o644)
+				// what an independent decompression of the same bytes yields
+				var plain []byte
+				var gzerr error
+				if zr, err := gzip.NewReader(bytes.NewReader(v.data)); err != nil {
+					gzerr = err
+				} else {
+					plain, gzerr = io.ReadAll(zr)
+				}
+				complete, _ := c20scan(bytes.NewReader(plain))
+				type result struct {
+					got              []uniprot.Entry
+					nerr             int
+					closedE, closedR bool
+					rerr             error
+					p                string
+				}
+				done := make(chan result, 1)
+				go func() {
+					var res result
+					res.p = catch(func() {
+						entries, errs, err := uniprot.Read(path)
+						if err != nil {
+							res.rerr = err
+							return
+						}
+						for e := range entries {
+							res.got = append(res.got, e)
+						}
+						res.closedE = true
+						for range errs {
+							res.nerr++
+						}
+						res.closedR = true
+					})
+					done <- res
+				}()
+				var res result
+				select {
+				case res = <-done:
+				case <-time.After(10 * time.Minute):
+					r.Failf("terminates-closed", fmt.Sprintf("uniprot.Read of a gzip file, %s, GOMAXPROCS=%d", v.what, procs), []string{"read", "damaged-gzip"}, "both channels closed", "still running after 10 minutes")
+					return
+				}
+				cnt++
+				cas := fmt.Sprintf("uniprot.Read of a gzip file of 3 entries, %s, GOMAXPROCS=%d", v.what, procs)
+				if res.p != "" {
+					r.Failf("no-panic", cas, []string{"read", "damaged-gzip"}, "entries and errors", "panic: "+res.p)
+					continue
+				}
+				if res.rerr != nil {
+					continue // the header itself is damaged: Read reports it at once
+				}
+				if gzerr == nil {
+					continue // damage that gzip does not notice
+				}
+				okEntries := len(res.got) >= complete
+				for i := 0; okEntries && i < complete; i++ {
+					okEntries = c20same(res.got[i], es[i])
+				}
+				if !okEntries {
+					r.Failf("entries-before-damage", cas, []string{"read", "damaged-gzip"}, fmt.Sprintf("the %d entries that precede the damage", complete), c20show(res.got))
+				}
+				if res.nerr == 0 {
+					r.Failf("error-reported", cas, []string{"read", "damaged-gzip"}, "at least one error ("+gzerr.Error()+")", "no error")
+				}
+			}
+		})
+		r.Eval(cnt)
+		r.AddStates(cnt)
+		r.AddTransitions(cnt)
+		r.AddNontrivial(cnt)
+		r.Bound("read-file/damaged-gzip", fmt.Sprintf("%d damaged gzip files (cut at each of the last 48 bytes and every 37th before; each of the 64 trailer bits flipped) x GOMAXPROCS 1 and 4, free-running", len(vs)))
 	}})
 	// the file wrapper
 	us = append(us, mc.Unit{Name: "read-file", Serial: true, Weight: 5, Run: func(r *mc.Recorder) {
